@@ -257,6 +257,9 @@ func outermost(fn *ssa.Function) *ssa.Function {
 func returnsOf(fn *ssa.Function) []*ssa.Return {
 	var out []*ssa.Return
 	for _, b := range fn.Blocks {
+		if b == fn.Recover {
+			continue // synthetic block run only when a deferred call recovers from a panic
+		}
 		for _, in := range b.Instrs {
 			if r, ok := in.(*ssa.Return); ok {
 				out = append(out, r)
